@@ -230,6 +230,19 @@ class LDAWrapper(LinearSolver):
                 bnrm = np.linalg.norm(badd)
                 if not np.isfinite(bnrm) or bnrm <= self.tol * bnrm0:  # Dependent on the database
                     continue
+                if bnrm < 0.5 * bnrm0:
+                    # Cancellation: re-evaluate the right-hand-side of the remainder and orthogonalize once more, else
+                    # the rounding errors are amplified by the normalization
+                    xfull = np.zeros(xnew.shape[0], dtype=xadd.dtype)
+                    xfull[isel] = xadd
+                    badd = (A @ xfull)[isel, ...]
+                    for x, b in zip(x_data, b_data):
+                        beta = badd @ b.conj() / (b.conj() @ b)
+                        badd = badd - beta * b
+                        xadd = xadd - beta * x
+                    bnrm = np.linalg.norm(badd)
+                    if not np.isfinite(bnrm) or bnrm <= self.tol * bnrm0:
+                        continue
                 badd /= bnrm
                 xadd /= bnrm
                 x_data.append(xadd)
